@@ -150,7 +150,8 @@ theorem enc_int (n : Nat) (v : Val) (b b' : Builder) (hw : wfb env (.int n) = tr
   cases v <;> simp only [inDom, Bool.false_eq_true] at hd
   rename_i i
   simp only [Bool.and_eq_true, decide_eq_true_eq] at hd
-  simp only [encode, Builder.writeInt] at he
+  simp only [encode] at he
+  rw [Builder.writeInt_repr _ _ _ hw.1 hd.1 hd.2] at he
   have hb := Builder.writeBits_ok he
   refine ⟨_, [], hb, RTs.toRT ?_ _⟩
   intro s hs
